@@ -23,25 +23,25 @@ def _run(fn, **kw):
 def jobs(tier, seed):
     js = []
     for g in GROUPS:
-        js.append(Job(f"C17/states/{g}", "contracts.C17:_run", dict(fn="job_states", group=g, seed=seed)))
-        js.append(Job(f"C17/povms/{g}", "contracts.C17:_run", dict(fn="job_povms", group=g, seed=seed)))
+        js.append(Job(f"C17/states/{g}", "contracts.C17:_run", dict(fn="job_states", group=g, seed=seed), timeout_s=1500.0))
+        js.append(Job(f"C17/povms/{g}", "contracts.C17:_run", dict(fn="job_povms", group=g, seed=seed), timeout_s=1500.0))
     for g in ["1qubit", "2qubit", "1qutrit", "identity"]:
-        js.append(Job(f"C17/gates/{g}", "contracts.C17:_run", dict(fn="job_gates", group=g, tier=tier, seed=seed)))
+        js.append(Job(f"C17/gates/{g}", "contracts.C17:_run", dict(fn="job_gates", group=g, tier=tier, seed=seed), timeout_s=1500.0))
     for part in range(4):
-        js.append(Job(f"C17/gates/3qubit/{part}", "contracts.C17:_run", dict(fn="job_gates", group="3qubit", tier=tier, seed=seed, part=part, parts=4)))
+        js.append(Job(f"C17/gates/3qubit/{part}", "contracts.C17:_run", dict(fn="job_gates", group="3qubit", tier=tier, seed=seed, part=part, parts=4), timeout_s=1500.0))
     n2 = 16 if tier == "quick" else 64
     for part in range(n2):
-        js.append(Job(f"C17/gates/2qutrit/{part}", "contracts.C17:_run", dict(fn="job_gates", group="2qutrit", tier=tier, seed=seed, part=part, parts=n2)))
-    js.append(Job("C17/actions", "contracts.C17:_run", dict(fn="job_actions", seed=seed)))
-    js.append(Job("C17/mprocess", "contracts.C17:_run", dict(fn="job_mprocess", seed=seed)))
-    js.append(Job("C17/ensembles", "contracts.C17:_run", dict(fn="job_ensembles", seed=seed)))
-    js.append(Job("C17/legacy", "contracts.C17:_run", dict(fn="job_legacy", seed=seed)))
-    js.append(Job("C17/testers", "contracts.C17:_run", dict(fn="job_testers", seed=seed)))
-    js.append(Job("C17/canary", "contracts.C17:_run", dict(fn="job_canary", seed=seed)))
+        js.append(Job(f"C17/gates/2qutrit/{part}", "contracts.C17:_run", dict(fn="job_gates", group="2qutrit", tier=tier, seed=seed, part=part, parts=n2), timeout_s=1500.0))
+    js.append(Job("C17/actions", "contracts.C17:_run", dict(fn="job_actions", seed=seed), timeout_s=1500.0))
+    js.append(Job("C17/mprocess", "contracts.C17:_run", dict(fn="job_mprocess", seed=seed), timeout_s=1500.0))
+    js.append(Job("C17/ensembles", "contracts.C17:_run", dict(fn="job_ensembles", seed=seed), timeout_s=1500.0))
+    js.append(Job("C17/legacy", "contracts.C17:_run", dict(fn="job_legacy", seed=seed), timeout_s=1500.0))
+    js.append(Job("C17/testers", "contracts.C17:_run", dict(fn="job_testers", seed=seed), timeout_s=1500.0))
+    js.append(Job("C17/canary", "contracts.C17:_run", dict(fn="job_canary", seed=seed), timeout_s=1500.0))
     return js
 
 
 CLAIM = {'engine': 'E0-enumeration (runtime contracts on the real code)', 'level': 'other',
  'text': 'BOUNDED STAND-IN, nothing counted as proved. The contracts of the catalogue dispatchers are evaluated natively on the real code for every listed name: all state names (1-3 qubits, 1-2 qutrits: 1066 names), all POVM names (345), all measurement-process names (13 single, 52 products), all state-ensemble names, all 1-/2-/3-qubit and 1-qutrit gate names with every qubit-id permutation, identity gates, and a sample of the 2-qutrit gates. Clauses: the object can be generated and is physical; pure vector / density matrix / coefficient vector / object agree; unitary / HS matrix / Hamiltonian exponential / Lindbladian exponential / object agree; Kraus sets are complete and give the HS matrices; every object_name form agrees; product names are Kronecker products; unitaries equal independent textbook definitions up to a global phase; 33 textbook (gate, state, state) actions; names outside the catalogue raise; the legacy named constructors (gate.get_*, state.get_*_1q, povm.get_*_povm) agree with the textbook / catalogue objects; tester helpers and generate_composite_system give what their arguments name.',
- 'note': 'Level other: exhaustive evaluation over a finite domain with floats, tolerance 1e-9; the dispatchers use eval() on constructed names, which the VC generators do not follow, and there is no symbolic input to quantify over. 2-qutrit gates (about 39k names, seconds each) are sampled in both tiers (32 quick, 798 thorough). One genuine defect found and fixed (state-ensemble catalogue listed names without a generator). Observation: for 3-qubit gates the documented role of ids ("ids[2] is for target") and the behaviour differ for the two cyclic permutations; the library\'s own interface tests pin the behaviour, so both readings are accepted.',
+ 'note': 'Level other: exhaustive evaluation over a finite domain with floats, tolerance 1e-9; the dispatchers use eval() on constructed names, which the VC generators do not follow, and there is no symbolic input to quantify over. 2-qutrit gates (about 39k names, seconds each) are sampled in both tiers (16 quick, 798 thorough). One genuine defect found and fixed (state-ensemble catalogue listed names without a generator). Observation: for 3-qubit gates the documented role of ids ("ids[2] is for target") and the behaviour differ for the two cyclic permutations; the library\'s own interface tests pin the behaviour, so both readings are accepted.',
  'technique': 'runtime contracts evaluated by complete enumeration of the finite catalogues (bounded stand-in for contract-based deductive verification)'}
